@@ -354,7 +354,8 @@ fn c26_multimap(seed: u64, steps: usize, alphabet: u64, key_len: usize) -> i32 {
         let mut tree = BTree::create(&mut pager).map_err(|e| e.to_string())?;
         // reference: per key, payloads in insertion order (last = newest)
         let mut model: std::collections::BTreeMap<Vec<u8>, Vec<u64>> = std::collections::BTreeMap::new();
-        let mk = |a: u64| { let mut k = vec![b'k'; key_len]; k[0..8].copy_from_slice(&a.to_be_bytes()); k };
+        // key_len == 0: mixed sizes - the length depends on the key, from 8 bytes to over a third of a page
+        let mk = |a: u64| { let len = if key_len == 0 { [8usize, 12, 2000, 30, 1500, 9, 700, 2900, 10, 16, 11, 2400][(a % 12) as usize] } else { key_len }; let mut k = vec![b'k'; len]; k[0..8].copy_from_slice(&a.wrapping_mul(0x9E3779B97F4A7C15).to_be_bytes()); k };
         let mut payload = 0u64;
         for step in 0..steps {
             let a = next() % alphabet;
@@ -399,9 +400,107 @@ fn c26_multimap(seed: u64, steps: usize, alphabet: u64, key_len: usize) -> i32 {
     });
     let _ = std::fs::remove_dir_all(&d);
     match r {
-        Ok(Ok(n)) => { println!("conforms: {n} random operations (seed {seed}, {alphabet} keys of {key_len} bytes) agree with the reference multimap"); 0 }
+        Ok(Ok(n)) => { println!("conforms: {n} random operations (seed {seed}, {alphabet} keys of {}) agree with the reference multimap", if key_len == 0 { "8 to 2900 bytes".to_string() } else { format!("{key_len} bytes") }); 0 }
         Ok(Err(e)) => { println!("VIOLATION reproduced: seed {seed}, alphabet {alphabet}, key length {key_len}: {e}"); 1 }
         Err(_) => { println!("VIOLATION reproduced: seed {seed}: panic"); 1 }
+    }
+}
+/// Witness class for C26: entries of very different sizes in one page.  Two fixed histories (a page
+/// whose large entries all sit in one half, at leaf level and at internal level) and random histories
+/// with mixed key sizes, each checked against the reference multimap.
+fn c26_mixed_sizes(seeds: u64, steps: usize) -> i32 {
+    use nervusdb_storage::index::btree::BTree;
+    use nervusdb_storage::pager::Pager;
+    fn key(prefix: u8, n: usize, len: usize) -> Vec<u8> { let mut k = vec![prefix; len]; k[len - 2] = (n >> 8) as u8; k[len - 1] = n as u8; k }
+    fn scan(t: &BTree, pager: &Pager) -> Result<Vec<(Vec<u8>, u64)>, String> {
+        let mut c = t.cursor_lower_bound(pager, b"").map_err(|e| e.to_string())?;
+        let mut out = vec![];
+        while c.is_valid().map_err(|e| e.to_string())? { out.push((c.key().map_err(|e| e.to_string())?, c.payload().map_err(|e| e.to_string())?)); if !c.advance().map_err(|e| e.to_string())? { break; } }
+        Ok(out)
+    }
+    // history: (keys to insert in order); every insert must succeed and the scan must equal the sorted model
+    let histories: Vec<(&str, Vec<Vec<u8>>)> = vec![
+        ("leaf with three 2000-byte keys in front of 150 two-byte keys, then a fourth 2000-byte key in front", {
+            let mut h: Vec<Vec<u8>> = (0..3).map(|i| key(b'b', i, 2000)).collect();
+            h.extend((0..150).map(|i| key(b'z', i, 2)));
+            h.push(key(b'a', 0, 2000));
+            h }),
+        ("root with three 2000-byte separators in front of short ones, then a split of the first leaf, then key 'ab'", {
+            let mut h: Vec<Vec<u8>> = (0..9).map(|i| key(b'b', i, 2000)).collect();
+            h.extend((0..2000usize).map(|i| vec![b'z', (i >> 16) as u8, (i >> 8) as u8, i as u8]));
+            h.extend((0..6).map(|i| key(b'a', i, 2000)));
+            h.push(b"ab".to_vec());
+            h }),
+    ];
+    for (what, h) in histories {
+        let d = tmpdir("c26-mixed");
+        let ndb = d.join("t.ndb");
+        let r = std::panic::catch_unwind(move || -> Result<usize, String> {
+            let mut pager = Pager::open(&ndb).map_err(|e| e.to_string())?;
+            let mut t = BTree::create(&mut pager).map_err(|e| e.to_string())?;
+            let mut model: Vec<(Vec<u8>, u64)> = vec![];
+            for (i, k) in h.iter().enumerate() {
+                t.insert(&mut pager, k, i as u64).map_err(|e| format!("insert #{i} (key of {} bytes) failed: {e}", k.len()))?;
+                model.push((k.clone(), i as u64));
+            }
+            model.sort();
+            let mut got = scan(&t, &pager)?;
+            if !got.windows(2).all(|w| w[0].0 <= w[1].0) { return Err(format!("scan is not in key order ({} entries)", got.len())); }
+            got.sort();
+            if got != model { return Err(format!("scan returned {} entries, {} were inserted", got.len(), model.len())); }
+            Ok(model.len())
+        });
+        let _ = std::fs::remove_dir_all(&d);
+        match r {
+            Ok(Ok(n)) => println!("conforms: {what}: {n} entries, scan equals the inserted pairs in key order"),
+            Ok(Err(e)) => { println!("VIOLATION reproduced: {what}: {e}"); return 1; }
+            Err(_) => { println!("VIOLATION reproduced: {what}: BTree::insert panicked (Page::rebuild_leaf: a half of the split does not fit its page)"); return 1; }
+        }
+    }
+    for seed in 1..=seeds {
+        for alphabet in [60u64, 700, 4000] {
+            if c26_multimap(seed, steps, alphabet, 0) != 0 { return 1; }
+        }
+    }
+    0
+}
+/// Witness class for C26: leaves emptied by deletes (deletes never merge or unlink pages).  `n` distinct
+/// keys of `key_len` bytes; a middle range is deleted, then the lower bound of every key and the scan that
+/// follows it are compared with the model; then a prefix is deleted and the scan from the start is compared.
+fn c26_empty_leaves(n: usize, key_len: usize) -> i32 {
+    use nervusdb_storage::index::btree::BTree;
+    use nervusdb_storage::pager::Pager;
+    let d = tmpdir("c26-empty");
+    let ndb = d.join("t.ndb");
+    let r = std::panic::catch_unwind(move || -> Result<usize, String> {
+        let mut pager = Pager::open(&ndb).map_err(|e| e.to_string())?;
+        let mut t = BTree::create(&mut pager).map_err(|e| e.to_string())?;
+        let mk = |i: usize| { let mut k = vec![b'k'; key_len]; k[0..8].copy_from_slice(&(i as u64).to_be_bytes()); k };
+        let mut live = vec![true; n];
+        for i in 0..n { t.insert(&mut pager, &mk(i), i as u64).map_err(|e| format!("insert {i}: {e}"))?; }
+        let mut checks = 0usize;
+        for (lo, hi) in [(n / 3, 3 * n / 4), (0, n / 3)] {
+            for i in lo..hi {
+                if !t.delete(&mut pager, &mk(i), i as u64).map_err(|e| format!("delete {i}: {e}"))? { return Err(format!("delete of stored key {i} returned false")); }
+                live[i] = false;
+            }
+            for from in 0..=n {
+                let want: Vec<u64> = (from..n).filter(|i| live[*i]).map(|i| i as u64).collect();
+                let start = if from == n { let mut k = mk(n - 1); k.push(0); k } else { mk(from) };
+                let mut c = t.cursor_lower_bound(&pager, &start).map_err(|e| e.to_string())?;
+                let mut got = vec![];
+                while c.is_valid().map_err(|e| e.to_string())? { got.push(c.payload().map_err(|e| e.to_string())?); if !c.advance().map_err(|e| e.to_string())? { break; } }
+                if got != want { return Err(format!("after deleting keys {lo}..{hi} of {n}: scan from key {from} returned {} entries (first {:?}), {} larger-or-equal entries are stored (first {:?})", got.len(), got.first(), want.len(), want.first())); }
+                checks += 1;
+            }
+        }
+        Ok(checks)
+    });
+    let _ = std::fs::remove_dir_all(&d);
+    match r {
+        Ok(Ok(c)) => { println!("conforms: {n} keys of {key_len} bytes, ranges deleted so that whole leaves are empty: {c} lower-bound scans agree with the model"); 0 }
+        Ok(Err(e)) => { println!("VIOLATION reproduced: {e}"); 1 }
+        Err(_) => { println!("VIOLATION reproduced: panic"); 1 }
     }
 }
 fn c26_multimap_sweep(seeds: u64, steps: usize) -> i32 {
@@ -578,6 +677,10 @@ fn main() {
         Some("c27_key_samples") => c27_key_samples(),
         Some("c18_ownership_mix_quick") => c18_ownership_mix(6, 60),
         Some("c18_ownership_mix_thorough") => c18_ownership_mix(30, 120),
+        Some("c26_empty_leaves_quick") => { let a = c26_empty_leaves(120, 1000); if a != 0 { a } else { c26_empty_leaves(900, 24) } }
+        Some("c26_empty_leaves_thorough") => { let mut rc = 0; for (n, l) in [(120usize, 1000usize), (900, 24), (400, 300), (3000, 16), (60, 2500)] { if rc == 0 { rc = c26_empty_leaves(n, l); } } rc }
+        Some("c26_mixed_sizes_quick") => c26_mixed_sizes(2, 1500),
+        Some("c26_mixed_sizes_thorough") => c26_mixed_sizes(25, 6000),
         Some("c26_multimap_quick") => c26_multimap_sweep(3, 400),
         Some("c26_multimap_thorough") => c26_multimap_sweep(40, 1500),
         Some("c28_vacuum_after_compact") => c28_vacuum_after_compact(),
